@@ -169,6 +169,7 @@ class Machine:
         self.meter = bool(meter)
         self.flat_exp = meter == "flat_exp" or (isinstance(meter, dict) and bool(meter.get("flat_exp")))
         self.force_warm = meter.get("force_warm") if isinstance(meter, dict) else None
+        self.no_storage = isinstance(meter, dict) and bool(meter.get("no_storage"))   # SLOAD/SSTORE charged nothing
         self.warm_log = []       # per state access (in execution order): was the slot/address already warm?
         self.gas = 0
         self.warm_slots = set()
@@ -365,14 +366,14 @@ def observe(block, state, meter=False, max_steps=100000):
             elif name == "SLOAD":
                 k = st.pop(0)
                 m.used.append(k)
-                if meter:
+                if meter and not m.no_storage:
                     m.gas += 100 if m.access(m.warm_slots, k) else 2100
                 st.insert(0, m.sread(k))
             elif name == "SSTORE":
                 k = st.pop(0)
                 v = st.pop(0)
                 m.used.append(k)
-                if meter:
+                if meter and not m.no_storage:
                     # EIP-2929 + EIP-2200/3529 (no refunds): original = value at the start of the block / after
                     # the last call, current = value now
                     if not m.access(m.warm_slots, k):
